@@ -34,6 +34,9 @@
      fixF1: the referrer pass of gcIndex walks the subject chain and repeats until
             nothing changes (false: the pass as found, which never returns when a
             referrer's subject is not in the rebuilt graph: result RHang).
+     fixHold: Delete with AutoGC does not queue the referrers of a deleted manifest directly:
+            they wait in a pending list and are queued, after each deletion of the cascade,
+            once no surviving (not queued) manifest links to them other than as its subject.
    Delete (queue-once, tagged referrers kept, never-stored danglings skipped) and
    resolver.Memory.Tag (moved reference leaves the old tag set) are modelled as
    repaired (C09 owns their pre-fix variants). *)
@@ -148,7 +151,7 @@ Section Universe.
   Variable subj : nat -> option nat.
   Variable sk : nat -> bool.
   Variable dflt : nat -> bool.
-  Variable fixF2 fixA fixF1 : bool.
+  Variable fixF2 fixA fixF1 fixHold : bool.
 
   (* ---------- graph.Memory.IndexAll into a node set ---------- *)
   Fixpoint visit (fuel : nat) (present : nat -> bool) (n : nat) (g : list nat) : list nat :=
@@ -242,8 +245,15 @@ Section Universe.
   Definition enqueue (x : nat) (qq : list nat * list nat) : list nat * list nat :=
     if mem x (snd qq) then qq else (fst qq ++ [x], x :: snd qq).
 
+  (* Store.heldBySurvivor: a predecessor that is not queued and links to p other than as its
+     subject *)
+  Definition held (s : store) (queued : list nat) (p : nat) : bool :=
+    existsb (fun q => negb (mem q queued) &&
+                      negb (match subj q with Some x => Nat.eqb x p | None => false end))
+            (predecessors (gr s) p).
+
   Fixpoint delete_loop (fuel : nat) (cfg : config) (o : orders) (ds : list (list nat * list nat))
-                       (qq : list nat * list nat) (s : store) : store * result :=
+                       (qq : list nat * list nat) (pending : list nat) (s : store) : store * result :=
     match fuel with
     | 0 => (s, ROutOfFuel)
     | S f =>
@@ -252,10 +262,11 @@ Section Universe.
       | head :: q =>
         let cs := hd ([], []) ds in
         let qq0 := (q, snd qq) in
-        let qq1 := if autogc cfg && mf head
-                   then fold_left (fun a p => if is_tagged p s then a else enqueue p a)
-                                  (shuffle (fst cs) (referrers s head)) qq0
-                   else qq0 in
+        let refs := if autogc cfg && mf head
+                    then filter (fun p => negb (is_tagged p s)) (shuffle (fst cs) (referrers s head))
+                    else [] in
+        let qq1 := if fixHold then qq0 else fold_left (fun a p => enqueue p a) refs qq0 in
+        let pend1 := if fixHold then pending ++ refs else pending in
         match delete1 cfg o head s with
         | (s', _, false) => (s', RNotFound)
         | (s', dang, true) =>
@@ -264,12 +275,15 @@ Section Universe.
                                                 else if mem d (blobs s') then enqueue d a else a)
                                     (shuffle (snd cs) dang) qq1
                      else qq1 in
-          delete_loop f cfg o (tl ds) qq2 s'
+          let cand := filter (fun p => negb (mem p (snd qq2))) pend1 in
+          let ready := filter (fun p => negb (held s' (snd qq2) p)) cand in
+          let waiting := filter (fun p => held s' (snd qq2) p) cand in
+          delete_loop f cfg o (tl ds) (fold_left (fun a p => enqueue p a) ready qq2) waiting s'
         end
       end
     end.
   Definition st_delete (cfg : config) (o : orders) (k : nat) (s : store) : store * result :=
-    delete_loop (S (S N)) cfg o (o_del o) ([k], [k]) s.
+    delete_loop (S (S N)) cfg o (o_del o) ([k], [k]) [] s.
 
   (* ---------- gcIndex ---------- *)
   Record gcacc := mkGc { g_res : resolver; g_gr : list nat; g_tagged : list nat }.
